@@ -32,7 +32,14 @@ def main():
         mod = importlib.import_module(f'rules.{a.prop}')
         P = load_program()
         res = report.Results(a.prop, a.tier)
-        mod.run(P, res, a.tier)
+        try:
+            mod.run(P, res, a.tier)
+        except AnalysisError as e:
+            # definite violations found before the analysis got stuck are still a verdict
+            if not any(o.status == 'violated' for o in res.obs):
+                raise
+            res.notes.append(f'analysis incomplete after the reported violations: {e}')
+            print(f'note: analysis incomplete after the reported violations: {e}')
         if a.tier == 'thorough' and not a.no_selftest and os.environ.get('VERIF_REPO') is None:
             import selftest
             selftest.run_for_property(a.prop, res)
